@@ -1,0 +1,42 @@
+//go:build verif
+
+package internal
+
+import "unsafe"
+
+// VerifEvent is one entry of the batch epoll_wait returned to the last Poll call. Verification harness only.
+type VerifEvent struct {
+	Slot uintptr // address of the slot the kernel handed back (identity of the registered object)
+	Fd   int
+	Mask uint32
+}
+
+// VerifEvents returns the first n entries of the poller's event buffer.
+func VerifEvents(p Poller, n int) []VerifEvent {
+	pp, ok := p.(*poller)
+	if !ok || n < 0 {
+		return nil
+	}
+	if n > len(pp.events) {
+		n = len(pp.events)
+	}
+	out := make([]VerifEvent, 0, n)
+	for i := 0; i < n; i++ {
+		ev := &pp.events[i]
+		/* #nosec G103 */
+		slot := *(**Slot)(unsafe.Pointer(&ev.Data))
+		out = append(out, VerifEvent{Slot: uintptr(unsafe.Pointer(slot)), Fd: slot.Fd, Mask: ev.Mask})
+	}
+	return out
+}
+
+// VerifWakerFd returns the descriptor of the poller's wake-up eventfd.
+func VerifWakerFd(p Poller) int {
+	if pp, ok := p.(*poller); ok {
+		return pp.waker.Fd()
+	}
+	return -1
+}
+
+// VerifTimerSlot exposes the slot of a timer.
+func (t *Timer) VerifSlot() *Slot { return &t.slot }
